@@ -277,6 +277,9 @@ func pwCompile(code, tmpl string) pwTemplate {
 		case "l":
 			re.WriteString("((?:" + pwQuoted + ", )*" + pwQuoted + ")")
 			kinds = append(kinds, 'l')
+		case "c":
+			re.WriteString("((?:" + pwQuoted + " -> )*" + pwQuoted + ")")
+			kinds = append(kinds, 'l')
 		case "p":
 			re.WriteString(`(line:\d+,col:\d+)`)
 			kinds = append(kinds, 'p')
